@@ -4805,3 +4805,170 @@ mutant('C13-pivot-serial-path-for-one-worker', 'C13',
          "            h5_path=src_path,\n"
          "            indices_tag='X/indices',\n")],
        'R-PROV/worker-count-special-case', 'pivot_csr_h5ad')
+
+# ----------------------------------------------------------------------
+# round 16
+# ----------------------------------------------------------------------
+_CSC = P+'utils/csc_to_csr.py'
+_CSP = P+'utils/csc_to_csr_parallel.py'
+mutant('C03-runners-up-resorted-by-correlation', 'C03',
+       '_run_type_assignment re-sorts the runners-up by correlation',
+       [(_EL, "    update_timer(\"choose_node\", t, timers)\n\n"
+         "    return result, bootstrapping_probability, avg_corr, "
+         "runners_up\n",
+         "    update_timer(\"choose_node\", t, timers)\n"
+         "    runners_up = [sorted(r, key=lambda x: -x[2])\n"
+         "                  for r in runners_up]\n\n"
+         "    return result, bootstrapping_probability, avg_corr, "
+         "runners_up\n")],
+       'R-SAMEVAL/results-as-chosen', '_run_type_assignment')
+twin('C03-twin-results-returned-through-a-local', 'C03',
+     '_run_type_assignment returns the four results through a local',
+     [(_EL, "    update_timer(\"choose_node\", t, timers)\n\n"
+       "    return result, bootstrapping_probability, avg_corr, "
+       "runners_up\n",
+       "    update_timer(\"choose_node\", t, timers)\n\n"
+       "    chosen = (result, bootstrapping_probability, avg_corr,\n"
+       "              runners_up)\n"
+       "    return chosen\n")])
+mutant('C09-truncation-output-rows-by-sorted-position', 'C09',
+       '_convert_to_new_leaves puts a merged node at its position among '
+       'the sorted new leaves',
+       [(_TP, "    for new_leaf in new_leaf_to_old_leaves:\n"
+         "        dst_row = new_leaf_to_row[new_leaf]\n",
+         "    for dst_row, new_leaf in enumerate(\n"
+         "            sorted(new_leaf_to_old_leaves)):\n")],
+       'R-PROV/rows-through-row-tables', '_convert_to_new_leaves')
+twin('C09-twin-truncation-output-rows-by-get', 'C09',
+     '_convert_to_new_leaves looks the output row up with the table\'s '
+     'items',
+     [(_TP, "    for new_leaf in new_leaf_to_old_leaves:\n"
+       "        dst_row = new_leaf_to_row[new_leaf]\n",
+       "    for new_leaf, dst_row in new_leaf_to_row.items():\n"
+       "        if new_leaf not in new_leaf_to_old_leaves:\n"
+       "            continue\n")])
+mutant('C12-pair-indexes-typed-from-their-count', 'C12',
+       'the pair indexes of a parent are cast to a type sized from how '
+       'many there are',
+       [(_SL, "    taxonomy_idx_array = np.array(\n"
+         "        taxonomy_idx_array)\n",
+         "    taxonomy_idx_array = np.array(\n"
+         "        taxonomy_idx_array).astype(\n"
+         "            choose_int_dtype((0, len(taxonomy_idx_array)+1)))\n")],
+       'R-CAP/bound-kind', '_get_taxonomy_idx')
+mutant('C13-uint-type-admits-capacity-plus-one', 'C13',
+       '_get_uint_dtype admits a type for its capacity plus one',
+       [(_CSC, "        if max_value < np.iinfo(candidate).max:\n",
+         "        if max_value <= np.iinfo(candidate).max + 2:\n")],
+       'R-CAP/fits-predicate', '_get_uint_dtype')
+twin('C13-twin-uint-type-non-strict', 'C13',
+     '_get_uint_dtype written with a non-strict comparison',
+     [(_CSC, "        if max_value < np.iinfo(candidate).max:\n",
+       "        if max_value <= np.iinfo(candidate).max - 1:\n")])
+mutant('C14-transposition-worker-absorbs-exit-request', 'C14',
+       'the transposition worker turns SystemExit into a normal return',
+       [(_CSP, "        transpose_sparse_matrix_on_disk(\n"
+         "            indices_handle=indices_handle,\n"
+         "            indptr_handle=indptr_handle,\n"
+         "            data_handle=data_handle,\n"
+         "            indices_max=indices_max,\n"
+         "            max_gb=max_gb,\n"
+         "            output_path=output_path,\n"
+         "            verbose=False,\n"
+         "            indices_slice=indices_slice)\n",
+         "        try:\n"
+         "            transpose_sparse_matrix_on_disk(\n"
+         "                indices_handle=indices_handle,\n"
+         "                indptr_handle=indptr_handle,\n"
+         "                data_handle=data_handle,\n"
+         "                indices_max=indices_max,\n"
+         "                max_gb=max_gb,\n"
+         "                output_path=output_path,\n"
+         "                verbose=False,\n"
+         "                indices_slice=indices_slice)\n"
+         "        except SystemExit:\n"
+         "            return\n")],
+       'R-HANDLER/no-swallow', '_transpose_subset_of_indices')
+twin('C14-twin-transposition-worker-reraises-interrupt', 'C14',
+     'the transposition worker prints and re-raises an interrupt',
+     [(_CSP, "        transpose_sparse_matrix_on_disk(\n"
+       "            indices_handle=indices_handle,\n"
+       "            indptr_handle=indptr_handle,\n"
+       "            data_handle=data_handle,\n"
+       "            indices_max=indices_max,\n"
+       "            max_gb=max_gb,\n"
+       "            output_path=output_path,\n"
+       "            verbose=False,\n"
+       "            indices_slice=indices_slice)\n",
+       "        try:\n"
+       "            transpose_sparse_matrix_on_disk(\n"
+       "                indices_handle=indices_handle,\n"
+       "                indptr_handle=indptr_handle,\n"
+       "                data_handle=data_handle,\n"
+       "                indices_max=indices_max,\n"
+       "                max_gb=max_gb,\n"
+       "                output_path=output_path,\n"
+       "                verbose=False,\n"
+       "                indices_slice=indices_slice)\n"
+       "        except KeyboardInterrupt:\n"
+       "            print('interrupted')\n"
+       "            raise\n")])
+mutant('C15-serialised-tree-without-name-tables', 'C15',
+       'to_str(drop_cells=True) builds its output without the name tables',
+       [(_TT, "            out_dict = copy.deepcopy(self._data)\n"
+         "            for leaf in out_dict[self.leaf_level]:\n"
+         "                out_dict[self.leaf_level][leaf] = []\n",
+         "            out_dict = {'hierarchy': list(self.hierarchy)}\n"
+         "            for level in self.hierarchy:\n"
+         "                out_dict[level] = copy.deepcopy(\n"
+         "                    self._data[level])\n"
+         "            for key in ('metadata', 'hierarchy_mapper'):\n"
+         "                if key in self._data:\n"
+         "                    out_dict[key] = copy.deepcopy(\n"
+         "                        self._data[key])\n"
+         "            for leaf in out_dict[self.leaf_level]:\n"
+         "                out_dict[self.leaf_level][leaf] = []\n")],
+       'R-AGREE/serialised-tree-complete', 'to_str')
+twin('C15-twin-serialised-tree-from-shallow-copy', 'C15',
+     'to_str(drop_cells=True) empties the leaves of a shallow copy',
+     [(_TT, "            out_dict = copy.deepcopy(self._data)\n"
+       "            for leaf in out_dict[self.leaf_level]:\n"
+       "                out_dict[self.leaf_level][leaf] = []\n",
+       "            out_dict = dict(self._data)\n"
+       "            out_dict[self.leaf_level] = {\n"
+       "                leaf: [] for leaf in self._data[self.leaf_level]}\n")])
+mutant('C16-rounding-skipped-for-default-type', 'C16',
+       'round_x_to_integers returns at once for the default integer type',
+       [(_VU, "    tmp_dir = pathlib.Path(\n"
+         "        tempfile.mkdtemp(\n"
+         "            dir=tmp_dir,\n"
+         "            prefix='round_x_to_integers_staging_'))\n",
+         "    if output_dtype is int:\n"
+         "        return\n"
+         "    tmp_dir = pathlib.Path(\n"
+         "        tempfile.mkdtemp(\n"
+         "            dir=tmp_dir,\n"
+         "            prefix='round_x_to_integers_staging_'))\n")],
+       'R-MUST/rounding-performed', 'round_x_to_integers')
+twin('C18-twin-merge-stores-keys-of-this-file', 'C18',
+     'the per-file marker tables are merged with .get over the keys of '
+     'the file\'s own table',
+     [(_MC, "            for k in this_lookup:\n"
+       "                if k == 'log':\n"
+       "                    continue\n"
+       "                marker_lookup[k] = this_lookup[k]\n",
+       "            for k in this_lookup:\n"
+       "                if k == 'log':\n"
+       "                    continue\n"
+       "                marker_lookup[k] = this_lookup.get(k, [])\n")])
+mutant('C04-mask-merge-skips-empty-chunk', 'C04',
+       'the p-value mask merge skips a chunk without stored entries',
+       [(_PM, "                indices = src['indices'][()].astype("
+         "indices_dtype)\n"
+         "                indptr = src['indptr'][()]\n",
+         "                if src['indices'].shape[0] == 0:\n"
+         "                    continue\n"
+         "                indices = src['indices'][()].astype("
+         "indices_dtype)\n"
+         "                indptr = src['indptr'][()]\n")],
+       'R-CURSOR', '_merge_masks')
